@@ -892,6 +892,156 @@ Example C13_roundtrips_hold : forallb ex_roundtrip roundtrips = true.
 Proof. exact roundtrips_hold. Qed.
 Print Assumptions C13_roundtrips_hold.
 
+(** ** format_parse_roundtrip END TO END for the timestamp item "%s" (Proofs/C13Stamp.v; resolution by the
+    timestamp arm of Parsed, C14_to_naive_datetime_of_timestamp / C14_utc_datetime_of_timestamp): for
+    EVERY NaiveDateTime and EVERY DateTime<Utc> -- every supported date, years before 1970 (negative
+    timestamps, printed with "-") included, every time of day -- parsing the formatted text returns
+    the value at whole seconds ([floor_ndt]: fraction and leap-second flag dropped, which a count of
+    non-leap seconds cannot carry; the identity on whole-second values). *)
+From V Require Proofs.C13Stamp.
+Theorem C13_stamp_ndt_roundtrip : forall y o v,
+  Proofs.C08Sweeps.repr y o (Model.DateTime.nd_date v) -> valid_time (Model.DateTime.nd_time v) ->
+  exists text,
+    Model.Format.write_items (Model.Format.fa_of_ndt v) Proofs.C13Stamp.STAMP_FMT [] = Model.Format.fok text /\
+    (let+ p := parse Model.Parsed.parsed_new text Proofs.C13Stamp.STAMP_FMT in
+     pr_of (Model.Parsed.to_naive_datetime_with_offset p 0)) = pok (Proofs.C13Stamp.floor_ndt v).
+Proof. exact Proofs.C13Stamp.ndt_stamp_roundtrip. Qed.
+Print Assumptions C13_stamp_ndt_roundtrip.
+
+Theorem C13_stamp_utc_roundtrip : forall y o v,
+  Proofs.C08Sweeps.repr y o (Model.DateTime.nd_date v) -> valid_time (Model.DateTime.nd_time v) ->
+  exists a text,
+    Model.Format.fa_of_utc v = Val a /\
+    Model.Format.write_items a Proofs.C13Stamp.STAMP_FMT [] = Model.Format.fok text /\
+    (let+ p := parse Model.Parsed.parsed_new text Proofs.C13Stamp.STAMP_FMT in pr_of (Model.Parsed.to_datetime p))
+      = pok (Model.DateTime.mk_dtz (Proofs.C13Stamp.floor_ndt v) 0).
+Proof. exact Proofs.C13Stamp.utc_stamp_roundtrip. Qed.
+Print Assumptions C13_stamp_utc_roundtrip.
+
+(* ... over the format string "%s" (lazily driven StrftimeItems, as parse_from_str does) *)
+Theorem C13_stamp_ndt_parse_from_str : forall y o v,
+  Proofs.C08Sweeps.repr y o (Model.DateTime.nd_date v) -> valid_time (Model.DateTime.nd_time v) ->
+  exists text,
+    Model.Format.delayed_display (Model.Format.fa_of_ndt v) (Model.Strftime.sf_new Proofs.C13Stamp.stamp_format) = Model.Format.fok text /\
+    ndt_parse_from_str text Proofs.C13Stamp.stamp_format = pok (Proofs.C13Stamp.floor_ndt v).
+Proof. exact Proofs.C13Stamp.ndt_stamp_parse_from_str. Qed.
+Print Assumptions C13_stamp_ndt_parse_from_str.
+
+Theorem C13_stamp_utc_parse_from_str : forall y o v,
+  Proofs.C08Sweeps.repr y o (Model.DateTime.nd_date v) -> valid_time (Model.DateTime.nd_time v) ->
+  exists a text,
+    Model.Format.fa_of_utc v = Val a /\
+    Model.Format.delayed_display a (Model.Strftime.sf_new Proofs.C13Stamp.stamp_format) = Model.Format.fok text /\
+    dt_parse_from_str text Proofs.C13Stamp.stamp_format = pok (Model.DateTime.mk_dtz (Proofs.C13Stamp.floor_ndt v) 0).
+Proof. exact Proofs.C13Stamp.utc_stamp_parse_from_str. Qed.
+Print Assumptions C13_stamp_utc_parse_from_str.
+
+Example C13_stamp_roundtrip_inhabited :
+  Proofs.C08Sweeps.repr 1969 365 (Proofs.C08Sweeps.mkdate 1969 365) /\ valid_time (Model.Time.mk_time 86399 0) /\
+  Proofs.C08Sweeps.repr (-262143) 1 (Proofs.C08Sweeps.mkdate (-262143) 1) /\ valid_time (Model.Time.mk_time 0 0) /\
+  Proofs.C13Stamp.stamp_text (-1) = [45; 49] /\
+  ndt_parse_from_str [45; 49] Proofs.C13Stamp.stamp_format =
+    pok (Model.DateTime.mk_ndt (Proofs.C08Sweeps.mkdate 1969 365) (Model.Time.mk_time 86399 0)).
+Proof. exact Proofs.C13Stamp.stamp_roundtrip_inhabited. Qed.
+Print Assumptions C13_stamp_roundtrip_inhabited.
+
+(** ** "%s%.9f" and "%s%.f" (Proofs/C13StampFrac.v; [frac_spec_ok spec]: spec is the %.9f or the %.f item): the
+    reader admits them (the timestamp stops at the dot; the fraction counts forward from the floor, also
+    for negative timestamps).  For EVERY NaiveDateTime / DateTime<Utc> parsing the formatted text returns
+    [drop_leap v]: the value itself (C13_drop_leap_is_identity), a leap second read back as the non-leap
+    :59.fff of the same count of seconds. *)
+From V Require Proofs.C13StampFrac.
+Theorem C13_stamp_frac_ndt_roundtrip : forall y o v spec, Proofs.C13StampFrac.frac_spec_ok spec ->
+  Proofs.C08Sweeps.repr y o (Model.DateTime.nd_date v) -> valid_time (Model.DateTime.nd_time v) ->
+  exists text,
+    Model.Format.write_items (Model.Format.fa_of_ndt v) (Proofs.C13StampFrac.STAMP_FRAC_FMT spec) [] = Model.Format.fok text /\
+    (let+ p := parse Model.Parsed.parsed_new text (Proofs.C13StampFrac.STAMP_FRAC_FMT spec) in
+     pr_of (Model.Parsed.to_naive_datetime_with_offset p 0)) = pok (Proofs.C13StampFrac.drop_leap v).
+Proof. exact Proofs.C13StampFrac.ndt_stamp_frac_roundtrip. Qed.
+Print Assumptions C13_stamp_frac_ndt_roundtrip.
+
+Theorem C13_stamp_frac_utc_roundtrip : forall y o v spec, Proofs.C13StampFrac.frac_spec_ok spec ->
+  Proofs.C08Sweeps.repr y o (Model.DateTime.nd_date v) -> valid_time (Model.DateTime.nd_time v) ->
+  exists a text,
+    Model.Format.fa_of_utc v = Val a /\
+    Model.Format.write_items a (Proofs.C13StampFrac.STAMP_FRAC_FMT spec) [] = Model.Format.fok text /\
+    (let+ p := parse Model.Parsed.parsed_new text (Proofs.C13StampFrac.STAMP_FRAC_FMT spec) in pr_of (Model.Parsed.to_datetime p))
+      = pok (Model.DateTime.mk_dtz (Proofs.C13StampFrac.drop_leap v) 0).
+Proof. exact Proofs.C13StampFrac.utc_stamp_frac_roundtrip. Qed.
+Print Assumptions C13_stamp_frac_utc_roundtrip.
+
+Theorem C13_stamp_frac_ndt_parse_from_str : forall y o v spec, Proofs.C13StampFrac.frac_spec_ok spec ->
+  Proofs.C08Sweeps.repr y o (Model.DateTime.nd_date v) -> valid_time (Model.DateTime.nd_time v) ->
+  exists text,
+    Model.Format.delayed_display (Model.Format.fa_of_ndt v) (Model.Strftime.sf_new (Proofs.C13StampFrac.stamp_frac_format spec))
+      = Model.Format.fok text /\
+    ndt_parse_from_str text (Proofs.C13StampFrac.stamp_frac_format spec) = pok (Proofs.C13StampFrac.drop_leap v).
+Proof. exact Proofs.C13StampFrac.ndt_stamp_frac_parse_from_str. Qed.
+Print Assumptions C13_stamp_frac_ndt_parse_from_str.
+
+Theorem C13_stamp_frac_utc_parse_from_str : forall y o v spec, Proofs.C13StampFrac.frac_spec_ok spec ->
+  Proofs.C08Sweeps.repr y o (Model.DateTime.nd_date v) -> valid_time (Model.DateTime.nd_time v) ->
+  exists a text,
+    Model.Format.fa_of_utc v = Val a /\
+    Model.Format.delayed_display a (Model.Strftime.sf_new (Proofs.C13StampFrac.stamp_frac_format spec)) = Model.Format.fok text /\
+    dt_parse_from_str text (Proofs.C13StampFrac.stamp_frac_format spec)
+      = pok (Model.DateTime.mk_dtz (Proofs.C13StampFrac.drop_leap v) 0).
+Proof. exact Proofs.C13StampFrac.utc_stamp_frac_parse_from_str. Qed.
+Print Assumptions C13_stamp_frac_utc_parse_from_str.
+
+Theorem C13_drop_leap_is_identity : forall v,
+  Model.Time.tfrac (Model.DateTime.nd_time v) < 1000000000 -> 0 <= Model.Time.tfrac (Model.DateTime.nd_time v) ->
+  Proofs.C13StampFrac.drop_leap v = v.
+Proof. exact Proofs.C13StampFrac.drop_leap_id. Qed.
+Print Assumptions C13_drop_leap_is_identity.
+
+Example C13_stamp_frac_inhabited :
+  Proofs.C13StampFrac.frac_spec_ok F_Nanosecond9 /\ Proofs.C13StampFrac.frac_spec_ok F_Nanosecond /\
+  ndt_parse_from_str [45; 50; 46; 53; 48; 48; 48; 48; 48; 48; 48; 48] (Proofs.C13StampFrac.stamp_frac_format F_Nanosecond9) =
+    pok (Model.DateTime.mk_ndt (Proofs.C08Sweeps.mkdate 1969 365) (Model.Time.mk_time 86398 500000000)) /\
+  ndt_parse_from_str [45; 50; 46; 53; 48; 48] (Proofs.C13StampFrac.stamp_frac_format F_Nanosecond) =
+    pok (Model.DateTime.mk_ndt (Proofs.C08Sweeps.mkdate 1969 365) (Model.Time.mk_time 86398 500000000)).
+Proof. exact Proofs.C13StampFrac.stamp_frac_inhabited. Qed.
+Print Assumptions C13_stamp_frac_inhabited.
+
+(** ** %v (= "%e-%b-%Y"), %h (= %b), %n and %t (white space): StrftimeItems expands them to items of the class
+    above (Proofs/C13MoreForms.v).  [fmt_date_class fmt] / [fmt_ndt_class k fmt] decide membership on the
+    format STRING; for a member, X::parse_from_str(&v.format(fmt).to_string(), fmt) = Ok(v with the printed
+    fields) for EVERY value.  Items no end-to-end theorem covers yet: the %C + %y pair, %Z / %::z / %:::z /
+    %#z (one-directional: the item theorems above state what holds), %+ and the RFC 2822 / RFC 3339 Fixed
+    items inside parse_internal, non-ASCII literals. *)
+From V Require Proofs.C13MoreForms.
+Theorem C13_fmt_date_class_roundtrip : forall fmt, Proofs.C13MoreForms.fmt_date_class fmt = true ->
+  forall y o d, Proofs.C08Sweeps.repr y o d ->
+  exists text,
+    Model.Format.delayed_display (Model.Format.fa_of_date d) (Model.Strftime.sf_new fmt) = Model.Format.fok text /\
+    date_parse_from_str text fmt = pok d.
+Proof. exact Proofs.C13MoreForms.fmt_date_class_roundtrip. Qed.
+Print Assumptions C13_fmt_date_class_roundtrip.
+
+Theorem C13_fmt_ndt_class_roundtrip : forall fmt k, fmt_ndt_class k fmt = true -> k = 3 \/ k = 6 \/ k = 9 ->
+  exists items, items_of fmt = Val (Some items) /\
+  forall y o d t, Proofs.C08Sweeps.repr y o d -> valid_time t ->
+  exists text,
+    Model.Format.delayed_display (Model.Format.fa_of_ndt (Model.DateTime.mk_ndt d t)) (Model.Strftime.sf_new fmt) = Model.Format.fok text /\
+    ndt_parse_from_str text fmt = pok (Model.DateTime.mk_ndt d (static_time_value items k t)).
+Proof. exact Proofs.C13MoreForms.fmt_ndt_class_roundtrip. Qed.
+Print Assumptions C13_fmt_ndt_class_roundtrip.
+
+(* "%v", "%d %h %Y", "%e%t%h%n%Y"; "%F%n%T", "%F%t%T", "%v%n%T", "%d %h %Y%t%H:%M:%S"; %h is the item of %b *)
+Example C13_more_format_strings :
+  Proofs.C13MoreForms.fmt_date_class [37;118] = true /\
+  Proofs.C13MoreForms.fmt_date_class [37;100;32;37;104;32;37;89] = true /\
+  Proofs.C13MoreForms.fmt_date_class [37;101;37;116;37;104;37;110;37;89] = true /\
+  fmt_ndt_class 9 [37;70;37;110;37;84] = true /\
+  fmt_ndt_class 9 [37;70;37;116;37;84] = true /\
+  fmt_ndt_class 9 [37;118;37;110;37;84] = true /\
+  fmt_ndt_class 9 [37;100;32;37;104;32;37;89;37;116;37;72;58;37;77;58;37;83] = true /\
+  items_of [37;104] = items_of [37;98] /\
+  items_of [37;110;37;116] = Val (Some [Space [10]; Space [9]]).
+Proof. exact Proofs.C13MoreForms.more_format_strings. Qed.
+Print Assumptions C13_more_format_strings.
+
 (** ** never-Panic (slice safety) for EVERY item list, the Fixed::RFC2822 item included
     (Proofs/C13Total.v; the older forms above, which exclude that item, are kept under their names).
     [Proofs.C13Total.item_wf]: the only condition on an item is that a literal is a string (what
